@@ -10,6 +10,10 @@ def run():
         bounded_rule="validation of the assumed engine semantics: every single leaf condition, a grid of OR and AND pairs, kwargs "
                      "filters and orderings, then seeded condition trees of depth <= 2 on a 6-row in-memory sqlite3 table with "
                      "NULLs, '', quotes and wildcards, against a three-valued evaluator of the intended condition; "
+                     "long IN / NOT IN value lists (499, 500, 501, 600, 1001, 1200 members; thorough: up to 2100; lists, tuples, "
+                     "sets, '='/'!=' with a list, 2-tuples, kwargs, with a NULL member, with duplicates) alone, AND-ed, inside OR "
+                     "groups and in seeded trees (quick 40, thorough 1500) on a 1500-row table with NULLs, duplicates and "
+                     "quotes, part of whose values are members; "
                      "cursor.execute is spied on for placeholders/parameters; non-trivial = a NULL-sensitive operator is involved",
         extra_assumptions=["static string conditions (caller-supplied SQL text) are excluded",
                            "comparison operands are scalars (('=', set) reaches the driver as an unbindable parameter: an "
